@@ -199,7 +199,20 @@ fn eval_fenced_code_block(
 ) -> MResult<Value> {
   let mut out = Value::Empty;
   for (c, cmmnt) in code {
-    match mech_code(c, interpreter) {
+    // a failure that surfaces as a panic (index out of bounds, arithmetic overflow) is an error of this block like any other:
+    // inside a named block it must not abort the rest of the document
+    let result = if isolate_errors {
+      match std::panic::catch_unwind(std::panic::AssertUnwindSafe(|| mech_code(c, interpreter))) {
+        Ok(r) => r,
+        Err(p) => {
+          let details = p.downcast_ref::<&'static str>().map(|s| s.to_string()).or_else(|| p.downcast_ref::<String>().cloned()).unwrap_or_else(|| "Non-string panic".to_string());
+          Err(MechError::new(UnknownPanicError { details }, None).with_compiler_loc())
+        }
+      }
+    } else {
+      mech_code(c, interpreter)
+    };
+    match result {
       Ok(value) => out = value,
       Err(err) => {
         if isolate_errors {
